@@ -35,11 +35,15 @@ TRUSTED = [
     "Python glue: history generator, frame construction (harness/frames.py), cell canonicalisation, byte comparisons",
 ]
 
-NPROC = 8
+NPROC = 12
 READ_TIMEOUT = 60.0
 KINDS = ["bool", "float32", "float64", "int8", "int32", "int64", "uint16", "uint64", "Int16", "Int64", "UInt32", "boolean",
          "str", "string", "bytes", "json", "dt_ms", "dt_us", "dt_ns", "dttz_us", "dttz_ns", "td_us", "td_ns",
-         "cat_str", "cat_int"]
+         "cat_str", "cat_int",
+         # object columns of python ints / bools (None = missing) stored as INT64 / BOOLEAN through object_encoding: the dtype they are
+         # read back with is derived from the null statistics of EVERY row group (api._dtypes), so a later batch changes it
+         "obj_int", "obj_bool"]
+OBJENC_KINDS = {"obj_int": "int", "obj_bool": "bool"}
 CAT_KINDS = ["cat_str", "cat_int"]
 OBJ_KINDS = ["str", "string", "bytes", "json"]
 SIZES = [0, 1, 2, 5, 20, 64, 200]
@@ -116,7 +120,29 @@ def gen_history(rng, hid, confirm=False):
                              "permute": (b > 0 and rng.random() < 0.5),
                              # the other documented entry point of an append: ParquetFile.write_row_groups
                              "via": ("write_row_groups" if (b > 0 and not h["index"] and rng.random() < 0.3) else "write")})
+    if not h["index"] and not confirm and rng.random() < 0.3:
+        # from this step on EVERY append of the history goes through ONE long-lived ParquetFile handle (pf.write_row_groups), which is
+        # also read after each of them: state the handle keeps about the dataset has to follow what it wrote itself
+        h["handle_from"] = rng.randrange(1, nb)
+        for b in h["batches"][h["handle_from"]:]:
+            # a FAILED operation through the handle first (its data source raises after `after` row groups / its k-th file call
+            # fails), then the append proper: nothing of the failed one may show up, now or after later appends
+            r = rng.random()
+            if r < 0.25:
+                b["failed_first"] = {"mode": "source", "after": rng.choice([0, 1, 1, 2])}
+            elif r < 0.4 and (b["n"] > 0 or scheme == "simple"):
+                # (with rows to write the first three file calls of a multi-file append belong to its first part file; an append of
+                # no rows goes straight to the summary files, whose rewrite is outside the property)
+                b["failed_first"] = {"mode": "io", "k": rng.choice([1, 2, 3])}
+    if scheme == "simple" and not confirm and rng.random() < FAULT_SHARE:
+        # I/O fault injection at EVERY call (open, read of the old footer, every write incl. the new footer, close) of one append
+        h["fault_step"] = rng.randrange(1, nb)
     return h
+
+
+FAULT_SHARE = 0.12
+FAULT_CAP = 60
+FAULT_VARIANTS = {"open": ["pre", "post"], "write": ["pre", "short", "post"], "close": ["post"], "mkdir": ["pre"], "ropen": ["pre"], "read": ["pre", "post"]}
 
 
 def build_batch(h, i):
@@ -128,7 +154,15 @@ def build_batch(h, i):
     data = {}
     for c in h["cols"]:
         e = b["cols"][c["name"]]
-        if c["kind"] in CAT_KINDS:
+        if c["kind"] in OBJENC_KINDS:
+            rng = random.Random(e["seed"])
+            m = F.null_mask(e["nulls"], n, rng)
+            if c["kind"] == "obj_int":
+                vals = [None if m[k] else rng.choice([0, 1, -1, 2 ** 62, -2 ** 63, rng.randint(-10 ** 6, 10 ** 6)]) for k in range(n)]
+            else:
+                vals = [None if m[k] else (rng.random() < 0.5) for k in range(n)]
+            data[c["name"]] = pd.Series(vals, dtype=object, name=c["name"])
+        elif c["kind"] in CAT_KINDS:
             rng = random.Random(e["seed"])
             lab = e["labels"]
             m = F.null_mask(e["nulls"], n, rng)
@@ -165,6 +199,13 @@ def write_kw(h, i):
         kw["row_group_offsets"] = b["row_group_offsets"]
     if h["index"]:
         kw["write_index"] = True
+    oe = {c["name"]: OBJENC_KINDS[c["kind"]] for c in h["cols"] if c["kind"] in OBJENC_KINDS}
+    if oe:
+        kw["object_encoding"] = dict({c["name"]: "infer" for c in h["cols"]}, **oe)
+        for c in h["partition_on"]:
+            kw["object_encoding"][c] = "infer"
+        if h["index"]:
+            kw["object_encoding"][h["index"]["name"]] = "infer"
     return kw
 
 
@@ -253,10 +294,208 @@ def old_chunk_ranges(pf):
     return out
 
 
+def failed_operation(handle, ff, df, akw, root, target, expected, with_index):
+    """an operation through the long-lived handle that FAILS (data source raising after some row groups / k-th file call failing);
+    afterwards a fresh open must read the previous content"""
+    from fastparquet import ParquetFile
+    out = {"mode": ff["mode"], "raised": None}
+    rec = dsfs.Recorder(root, fail_at=ff.get("k"), variant="pre")
+
+    def source():
+        n = len(df)
+        cut = max(1, n // 2)
+        for j, part in enumerate([df.iloc[:cut], df.iloc[cut:], df]):
+            if j >= ff["after"]:
+                raise OSError("the data source of this append failed after %d row groups" % j)
+            yield part
+    with rec:
+        try:
+            if ff["mode"] == "source":
+                handle.write_row_groups(source(), compression=akw["compression"], open_with=rec.open_with, mkdirs=rec.mkdirs)
+            else:
+                handle.write_row_groups(df, row_group_offsets=akw.get("row_group_offsets"), compression=akw["compression"],
+                                        open_with=rec.open_with, mkdirs=rec.mkdirs)
+        except BaseException as e:      # noqa
+            out["raised"] = "%s: %s" % (type(e).__name__, str(e)[:100])
+    if out["raised"] is None:
+        out["problem"] = ["failing-operation-returned-normally", "an append whose %s fails returned normally" % (
+            "data source" if ff["mode"] == "source" else "file call number %s" % ff.get("k"))]
+        return out
+    s_, val = dsfs.guarded(lambda: frame_cells(ParquetFile(target).to_pandas(), with_index), READ_TIMEOUT)
+    if s_ != "ok" or val != expected:
+        out["problem"] = ["failed-append-through-handle-changed-content",
+                          "after an append through the handle failed (%s) a fresh open %s" % (out["raised"], "reads other content" if s_ == "ok" else "fails: %s" % (val,))]
+    return out
+
+
+# ---------------------------------------------------------------------------------------------
+# I/O faults at every call of a single-file append
+# ---------------------------------------------------------------------------------------------
+def fault_runs(h, i, base, before, loc, df, akw, rec0, expected_before):
+    """The append of step i again, on a copy of the file as it was before, once for every call the fault-free append issued
+    (write side: open, write, close; read side: reads of the old footer) x variant, that call failing.  Judged: the append reports the
+    failure; the bytes below the old footer start (all existing row groups) are unchanged; a fresh open reads the previous content."""
+    from fastparquet import write, ParquetFile
+    ft = os.path.join(base, "fault", "ds.parquet")
+    os.makedirs(os.path.dirname(ft), exist_ok=True)
+    plan = [("w", k + 1, v) for k, kind in enumerate(rec0.kinds) for v in FAULT_VARIANTS[kind]] + \
+           [("r", k + 1, v) for k, kind in enumerate(rec0.rkinds) for v in FAULT_VARIANTS[kind]]
+    out = {"runs": 0, "problems": [], "kinds": {}, "outcomes": {}, "calls": [len(rec0.kinds), len(rec0.rkinds)]}
+    if len(plan) > FAULT_CAP:
+        # a long append (many row groups): the first calls, the LAST ones (new footer: thrift bytes, length, magic; close), every read-side
+        # call, and an evenly spaced selection of the rest
+        nw = len(rec0.kinds)
+        keep = set(range(1, 7)) | set(range(max(1, nw - 7), nw + 1))
+        rest = [k for k in range(1, nw + 1) if k not in keep]
+        step = max(1, len(rest) // 12)
+        keep |= set(rest[(h["id"] + i) % step::step])
+        plan = [p_ for p_ in plan if p_[0] == "r" or p_[1] in keep]
+    via = h["batches"][i].get("via")
+    for side, k, v in plan:
+        with open(ft, "wb") as f:
+            f.write(before)
+        rec = dsfs.Recorder(os.path.dirname(ft), fail_at=k if side == "w" else None, fail_read_at=k if side == "r" else None, variant=v)
+        raised = None
+        with rec:
+            try:
+                if via == "write_row_groups" or h.get("handle_from") is not None:
+                    ParquetFile(ft, open_with=rec.open_with).write_row_groups(
+                        df, row_group_offsets=akw.get("row_group_offsets"), compression=akw["compression"], open_with=rec.open_with, mkdirs=rec.mkdirs)
+                else:
+                    write(ft, df, append=True, open_with=rec.open_with, mkdirs=rec.mkdirs, **akw)
+            except BaseException as e:      # noqa
+                raised = "%s: %s" % (type(e).__name__, str(e)[:120])
+        out["runs"] += 1
+        kind = rec.fired[1] if rec.fired else "not-reached"
+        out["kinds"]["%s/%s" % (kind, v)] = out["kinds"].get("%s/%s" % (kind, v), 0) + 1
+        after = open(ft, "rb").read()
+        what = "call %d (%s %s, variant %s) of the append failing" % (k, "read-side" if side == "r" else "write-side", kind, v)
+        tag = {"fault": [side, k, v, kind]}
+        if rec.fired is None:
+            continue            # (the read-side numbering differs between entry points; a call that is not reached fails nothing)
+        s_, val = dsfs.guarded(lambda: frame_cells(ParquetFile(ft).to_pandas(), bool(h["index"])), READ_TIMEOUT)
+        content = "unreadable" if s_ != "ok" else ("old" if val == expected_before else "other")
+        oc = "%s/%s" % ("raised" if raised else "returned", content)
+        out["outcomes"][oc] = out["outcomes"].get(oc, 0) + 1
+        if raised is None:
+            # the failure was swallowed: then the append has to be complete (judged by the main oracle on the fault-free run); only a
+            # damaged file is reported here
+            if content == "unreadable":
+                out["problems"].append(("fault-swallowed-file-unreadable", "%s: the append returned normally and the file cannot be read (%s)" % (what, val), tag))
+            continue
+        if after[:loc] != before[:loc]:
+            out["problems"].append(("failed-append-changed-old-row-groups", "%s: bytes below the old footer start %d changed" % (what, loc), tag))
+        if kind == "close":
+            continue            # everything was written when close failed: old or new content, both complete
+        if content == "unreadable":
+            out["problems"].append(("failed-append-file-unreadable", "%s (raised %s): the file can no longer be read (%s)" % (what, raised, val), tag))
+        elif content != "old":
+            out["problems"].append(("failed-append-content-changed", "%s (raised %s): a fresh open no longer reads the previous content" % (what, raised), tag))
+    out["problems"] = [(a, b) for a, b, _ in out["problems"]]
+    return out
+
+
+# ---------------------------------------------------------------------------------------------
+# foreign files (another writer's) as append targets
+# ---------------------------------------------------------------------------------------------
+# (physical type, converted type, logical, tag) of harness/fmtgen.py that a pandas frame of the matching dtype is accepted for
+FOREIGN_TYPES = [(0, None, None, "bool"), (1, None, None, "int32"), (2, None, None, "int64"), (4, None, None, "float"),
+                 (5, None, None, "double"), (6, 0, None, "utf8")]
+FOREIGN_DTYPE = {"bool": "bool", "int32": "int32", "int64": "int64", "float": "float32", "double": "float64", "utf8": "object"}
+
+
+def gen_foreign(rng, hid, shape=None):
+    """a file laid out by the spec-level encoder (every page layout of C03's quantifier: dictionary pages with RLE / bit-packed / mixed
+    index runs of any width, definition levels in any run shape with or without statistics, v1/v2 pages, several pages per chunk,
+    codecs) + 1..3 appends of frames with the same columns"""
+    from harness import fmtgen
+    knobs = {"created_by": rng.choice(["parquet-mr version 1.12.3 (build abc)", "spec-encoder", "parquet-cpp-arrow version 14.0.1"]),
+             "ncols": rng.choice([1, 2, 3]), "nrgs": rng.choice([1, 1, 2])}
+    lf = None
+    if shape == "big-dictionary":
+        # more than 128 dictionary entries, index pages made of several RLE and bit-packed runs
+        knobs.update(ncols=1, nrgs=1, rows=200, encs=["dict"], optional=False, coltype=FOREIGN_TYPES[2], split="one", codec=0)
+    elif shape == "levels-without-nulls":
+        # OPTIONAL column, no NULL in it, statistics say null_count = 0, definition levels present in several runs
+        knobs.update(ncols=1, nrgs=1, rows=65, encs=["plain"], optional=True, coltype=FOREIGN_TYPES[4], split="one", codec=0)
+    for _ in range(200):
+        k = dict(knobs)
+        if "coltype" not in k:
+            # one type for the whole file keeps gen_lfile's interface; columns of one file share the type, files differ
+            k["coltype"] = rng.choice(FOREIGN_TYPES)
+        if "encs" not in k:
+            k["encs"] = rng.choice([["plain"], ["dict"], ["plain", "dict"], ["dict", "dict", "plain"], ["rlebool", "plain"]])
+        lf, table = fmtgen.gen_lfile(rng, k)
+        if shape == "big-dictionary":
+            vals = list(range(1000, 1200))
+            rng.shuffle(vals)
+            ix = list(range(200))
+            lf["rgs"][0][0]["items"] = [{"dict": 0, "vals": vals},
+                                        {"v2": False, "n": 200, "def": [], "iscomp": None, "trail": "",
+                                         "store": ["dictidx", 2, 8, [["b", ix[:64]], ["r", 1, 64]] + [["b", ix[65:65 + 128]], ["r", 1, 193]] + [["b", ix[194:200]]]]}]
+            lf["rgs"][0][0]["stats"] = False
+        if shape == "levels-without-nulls":
+            c = lf["rgs"][0][0]
+            vals = [v for it in c["items"] if "store" in it for v in it["store"][1]]
+            if len(vals) != 65:
+                continue
+            c["items"] = [{"v2": False, "n": 65, "def": [["b", [1] * 8], ["r", 49, 1], ["b", [1] * 8]], "iscomp": None, "trail": "", "store": ["plain", vals]}]
+            c["stats"] = True
+        break
+    cols = [{"name": l["name"], "kind": "foreign_" + l["tag"], "optional": bool(l["optional"])} for l in lf["leaves"]]
+    h = {"id": hid, "scheme": "simple", "cols": cols, "partition_on": [], "index": None, "confirm": False, "foreign": {"lfile": lf, "shape": shape},
+         "batches": [{"n": 0, "via": "foreign-writer"}]}
+    for b in range(rng.choice([1, 1, 2, 3])):
+        n = rng.choice([1, 2, 5, 20, 64])
+        h["batches"].append({"n": n, "seed": rng.randrange(1 << 30), "row_group_offsets": rng.choice([None, None, 2, [0]]),
+                             "compression": rng.choice(CODECS), "permute": False,
+                             "via": rng.choice(["write", "write", "write_row_groups"])})
+    if rng.random() < 0.3:
+        h["handle_from"] = 1
+    return h
+
+
+def foreign_bytes(h):
+    from harness import fmtlib
+    pq = C.Pqref()
+    try:
+        return bytes(fmtlib.encode_file(pq, h["foreign"]["lfile"])[0])
+    finally:
+        pq.close()
+
+
+def build_foreign_batch(h, i):
+    import random
+    import numpy as np
+    import pandas as pd
+    b = h["batches"][i]
+    rng = random.Random(b["seed"])
+    n = b["n"]
+    data = {}
+    for c in h["cols"]:
+        tag = c["kind"][len("foreign_"):]
+        if tag == "bool":
+            v = np.array([rng.random() < 0.5 for _ in range(n)], dtype=bool)
+        elif tag in ("int32", "int64"):
+            v = np.array([rng.randint(-1000, 1000) for _ in range(n)], dtype=tag)
+        elif tag in ("float", "double"):
+            v = np.array([rng.choice([0.5, -1.25, 3.0, 1e10]) for _ in range(n)], dtype=FOREIGN_DTYPE[tag])
+            if c["optional"] and n and rng.random() < 0.5:
+                v[rng.randrange(n)] = np.nan
+        else:
+            v = pd.Series([rng.choice(["", "a", "bb", "é", "s%d" % rng.randrange(50)]) for _ in range(n)], dtype=object)
+            if c["optional"] and n and rng.random() < 0.5:
+                v[rng.randrange(n)] = None
+        data[c["name"]] = v
+    return pd.DataFrame(data)
+
+
 # ---------------------------------------------------------------------------------------------
 def run_history(arg):
     """Worker: everything that touches the real code for one history.  Returns plain data."""
     h, scratch = arg
+    import time
+    t0 = time.time()
     out = {"id": h["id"], "steps": [], "error": None, "outcome": "ok"}
     base = os.path.join(scratch, "h%d" % h["id"])
     try:
@@ -266,8 +505,28 @@ def run_history(arg):
         target = os.path.join(base, "ds.parquet" if simple else "ds")
         root = base if simple else target
         expected = None
+        handle = None                   # the long-lived ParquetFile of a history with "handle_from"
+        had_failed = False              # a failed operation may have left unreferenced part files behind
+        foreign = h.get("foreign")
         for i in range(len(h["batches"])):
-            df = build_batch(h, i)
+            if foreign and i == 0:
+                # the target of the appends was written by ANOTHER writer (spec-level encoder, harness/fmtgen.py + pqref fmt_encode):
+                # its rows are whatever fastparquet reads from it before the first append
+                st = {"step": 0, "n": 0, "problems": []}
+                with open(target, "wb") as f:
+                    f.write(foreign_bytes(h))
+                s0, val0 = dsfs.guarded(lambda: (lambda d: (frame_cells(d, False), frame_dtypes(d)))(ParquetFile(target).to_pandas()), READ_TIMEOUT)
+                if s0 != "ok":
+                    out["outcome"] = "foreign-target-unreadable-before-any-append"      # C03's subject
+                    st["raised"] = str(val0)[:200]
+                    out["steps"].append(st)
+                    break
+                expected, dtypes0 = val0
+                st["n"] = len(expected[0][1]) if expected else 0
+                st["cols"] = [c for c, _ in expected]
+                out["steps"].append(st)
+                continue
+            df = build_foreign_batch(h, i) if foreign else build_batch(h, i)
             kw = write_kw(h, i)
             st = {"step": i, "n": len(df), "problems": []}
             # what this batch reads back as when written alone
@@ -300,11 +559,25 @@ def run_history(arg):
                     refs_b = dsfs.refs_of(pf_b)
                 rec = dsfs.Recorder(root, keep_data=simple)
                 raised = None
+                expected_before = expected
+                use_handle = h.get("handle_from") is not None and i >= h["handle_from"]
                 with rec:
                     try:
                         akw = dict(kw)
                         akw.pop("write_index", None)
-                        if h["batches"][i].get("via") == "write_row_groups":
+                        akw.pop("object_encoding", None)        # the stored schema decides on append
+                        if use_handle:
+                            if handle is None:
+                                handle = ParquetFile(target)      # opened once; every later append and read-in-between uses it
+                            ff = h["batches"][i].get("failed_first")
+                            if ff:
+                                had_failed = True
+                                st["failed_first"] = failed_operation(handle, ff, df, akw, root, target, expected, bool(h["index"]))
+                                if st["failed_first"].get("problem"):
+                                    st["problems"].append(tuple(st["failed_first"]["problem"]))
+                            handle.write_row_groups(df, row_group_offsets=akw.get("row_group_offsets"), compression=akw["compression"],
+                                                    open_with=rec.open_with, mkdirs=rec.mkdirs)
+                        elif h["batches"][i].get("via") == "write_row_groups":
                             ParquetFile(target, open_with=rec.open_with).write_row_groups(
                                 df, row_group_offsets=akw.get("row_group_offsets"), compression=akw["compression"],
                                 open_with=rec.open_with, mkdirs=rec.mkdirs)
@@ -339,9 +612,13 @@ def run_history(arg):
                         st["problems"].append(("old-chunk-not-below-footer", "column chunk byte range %s not inside [4, %d)" % (bad[0], loc)))
                     if after[-4:] != b"PAR1":
                         st["problems"].append(("no-trailing-magic", "file does not end with PAR1"))
+                    if h.get("fault_step") == i:
+                        st["faults"] = fault_runs(h, i, base, before, loc, df, akw, rec, expected_before)
+                        st["problems"] += st["faults"]["problems"][:3]
                 else:
                     snap_a = dsfs.snapshot(target)
-                    old_files = [p for p in snap_b if p not in (dsfs.MD, dsfs.CMD)]
+                    # (the data files OF THE DATASET: what the summary references; a part file left behind by a failed operation is not)
+                    old_files = [p for p in snap_b if p not in (dsfs.MD, dsfs.CMD) and (p in refs_b or not had_failed)]
                     changed = [p for p in old_files if snap_a.get(p) != snap_b[p]]
                     if changed:
                         st["problems"].append(("existing-data-file-changed", "pre-existing data file(s) %s %s" % (
@@ -353,6 +630,7 @@ def run_history(arg):
                     if moved:
                         st["problems"].append(("renamed-or-removed-existing-data-file", "%s" % moved[:3]))
                     st["new_files"] = sorted(set(snap_a) - set(snap_b))
+                    st["had_failed"] = had_failed
                     st["nfiles_before"] = len(snap_b)
                 a_map = dict((c, v) for c, v in a_cells)        # by column NAME: the appended frame may order its columns differently
                 if sorted(a_map) != sorted(c for c, _ in expected):
@@ -362,15 +640,38 @@ def run_history(arg):
             def reader():
                 pf = ParquetFile(target)
                 whole = pf.to_pandas()
+                hread = None
+                if handle is not None:
+                    # the SAME handle that made the appends, read in between: it must see what it wrote
+                    try:
+                        hw = handle.to_pandas()
+                        hread = [frame_cells(hw, False), [handle.fmd.num_rows, sum(rg.num_rows for rg in handle.row_groups), handle.count()]]
+                    except Exception as e:      # noqa
+                        hread = "%s: %s" % (type(e).__name__, str(e)[:200])
                 return (frame_cells(whole, bool(h["index"])), frame_dtypes(whole), dsfs.refs_of(pf) if not simple else [], len(pf.row_groups),
                         cat_observation(pf, whole, [c["name"] for c in h["cols"] if c["kind"] in CAT_KINDS]),
-                        old_chunk_ranges(pf) if simple else [], [pf.fmd.num_rows, sum(rg.num_rows for rg in pf.row_groups), pf.count()])
+                        old_chunk_ranges(pf) if simple else [], [pf.fmd.num_rows, sum(rg.num_rows for rg in pf.row_groups), pf.count()], hread)
             s, val = dsfs.guarded(reader, READ_TIMEOUT)
             if s != "ok":
                 st["problems"].append(("unreadable", "fresh open/read after step %d: %s %s" % (i, s, val)))
             else:
-                got, got_dtypes, refs_a, nrg, st["cat"], ranges_a, counts = val
-                bad_dt = sorted(c for c in dtypes0 if c in got_dtypes and got_dtypes[c] != dtypes0[c])
+                got, got_dtypes, refs_a, nrg, st["cat"], ranges_a, counts, hread = val
+                if hread is not None:
+                    st["via_handle"] = True
+                    want_rows = len(expected[0][1]) if expected else 0
+                    if isinstance(hread, str):
+                        st["problems"].append(("handle-read-raised", "reading through the handle that made the append(s) raised %s" % hread))
+                    elif sorted(hread[0]) != sorted(expected):
+                        hm = dict((c, v) for c, v in hread[0])
+                        badc = [c for c, ev in expected if hm.get(c) != ev]
+                        st["problems"].append(("handle-read-differs", "the handle that made the append(s) reads %s rows, %d were written; first differing column %s" % (
+                            len(hread[0][0][1]) if hread[0] else 0, want_rows, badc[:1])))
+                    elif any(c != want_rows for c in hread[1]):
+                        st["problems"].append(("handle-row-count", "handle: num_rows %s, sum of row groups %s, count() %s; %d rows were written" % (
+                            hread[1][0], hread[1][1], hread[1][2], want_rows)))
+                # (object-encoded int/bool columns and another writer's columns get their dtype from the null statistics of all row groups)
+                loose = set(c["name"] for c in h["cols"] if c["kind"] in OBJENC_KINDS or foreign)
+                bad_dt = sorted(c for c in dtypes0 if c in got_dtypes and got_dtypes[c] != dtypes0[c] and c not in loose)
                 if bad_dt and i > 0:
                     st["problems"].append(("dtype-differs", "column %s: dtype %s after the append, %s when the first write is read alone" % (
                         bad_dt[0], got_dtypes[bad_dt[0]], dtypes0[bad_dt[0]])))
@@ -416,6 +717,7 @@ def run_history(arg):
         out["error"] = traceback.format_exc()[-3000:]
     finally:
         shutil.rmtree(base, ignore_errors=True)
+    out["wall"] = time.time() - t0
     return out
 
 
@@ -449,6 +751,7 @@ def run(ctx):
     ctx.coq_file(os.path.join(C.COQ, "props", "C07.v"))
     bad = C.hygiene()
     ctx.obligation("hygiene: no Admitted/Axiom/Parameter/... in coq/", not bad, "; ".join(bad))
+    dsfs.partnames_translator(ctx)
     chk = dsfs.coqchk_start(C.COQ, "C07") if not ctx.quick() else None
     C.use_shadow()
     C.pqref()
@@ -460,6 +763,9 @@ def run(ctx):
                 "list of a categorical column fixed, a small confirmation stream varies it (superset / reordered / disjoint); after EVERY step: "
                 "bytes, listing, trace, fresh read; a case is one step of a history; the first write of a history is the trivial case" % len(KINDS))
     hs = [gen_history(rng, i, False) for i in range(nh)] + [gen_history(rng, nh + i, True) for i in range(nconf)]
+    nfor = 40 if ctx.quick() else 400
+    hs += [gen_foreign(rng, 50000, "big-dictionary"), gen_foreign(rng, 50001, "levels-without-nulls")]
+    hs += [gen_foreign(rng, 50002 + i) for i in range(nfor)]
     cdir = os.path.join(C.VERIF, "corpus", "C07")
     if os.path.isdir(cdir):
         for i, f in enumerate(sorted(os.listdir(cdir))):
@@ -477,13 +783,19 @@ def run(ctx):
                      "the process running this history on the real code %s" % res["__crashed__"])
     results = [r for r in results if not (isinstance(r, dict) and "__crashed__" in r)]
     by_id = {h["id"]: h for h in hs}
+    tw = sorted(((r.get("wall", 0), r["id"]) for r in results), reverse=True)
+    ctx.extra["worker_seconds"] = {"total": round(sum(t for t, _ in tw), 1), "slowest": [[round(t, 1), i, ("foreign" if by_id[i].get("foreign") else "fault" if by_id[i].get("fault_step") else "plain")] for t, i in tw[:6]],
+                                   "foreign": round(sum(t for t, i in tw if by_id[i].get("foreign")), 1),
+                                   "fault": round(sum(t for t, i in tw if by_id[i].get("fault_step")), 1)}
     cmds, meta = [], []
     mono_seen, mono_bad = [0], []
     for res in results:
         h = by_id[res["id"]]
         if res["error"]:
             raise RuntimeError("history %d failed in the harness:\n%s" % (res["id"], res["error"]))
-        ctx.count("scheme", h["scheme"] + ("+index" if h["index"] else ""))
+        ctx.count("scheme", h["scheme"] + ("+index" if h["index"] else "") + ("(target written by another writer)" if h.get("foreign") else ""))
+        if h.get("handle_from") is not None:
+            ctx.count("appends_through_one_reused_handle", sum(1 for st in res["steps"] if st.get("via_handle")))
         ctx.count("appends", len(h["batches"]) - 1)
         ctx.count("history_outcome", res["outcome"] + ("(confirmation stream)" if h["confirm"] else ""))
         for c in h["cols"]:
@@ -497,6 +809,15 @@ def run(ctx):
             short = {"history": h["id"], "scheme": h["scheme"], "step": i}
             if "raised" in st:
                 ctx.count("refused", st["raised"][:60])
+            if st.get("failed_first"):
+                ctx.count("failed_operation_before_append_on_reused_handle", "%s/%s" % (st["failed_first"]["mode"], h["scheme"]))
+            if st.get("faults"):
+                ctx.count("fault_injected_appends", 1)
+                for key_, dd in (("fault_kind", st["faults"]["kinds"]), ("fault_outcome", st["faults"]["outcomes"])):
+                    d_ = ctx.dist.setdefault(key_, {})
+                    for k_, n_ in dd.items():
+                        d_[k_] = d_.get(k_, 0) + n_
+                ctx.extra["fault_runs"] = ctx.extra.get("fault_runs", 0) + st["faults"]["runs"]
             for sym, text in st["problems"]:
                 ctx.fail(classify(h, st, sym), {"history": h, "failing_step": i, "observed": text,
                                                 "trace": dsfs.trace_json(st.get("trace", []), 120)}, text)
@@ -514,6 +835,11 @@ def run(ctx):
                     meta.append(("rel", short, st))
                     cmds.append(("append_seq", st["before"], st["chunks"]))
                     meta.append(("seq", short, st))
+                    if h.get("foreign"):
+                        # another writer's footer may hold fields fastparquet does not write back (C07_simple_shorter_tail_refuted): the
+                        # hypothesis is about footers fastparquet serialised itself; the relation check above and the oracle still apply
+                        ctx.count("foreign_footer", "shorter" if st["footer_len"][1] < st["footer_len"][0] else "not shorter")
+                        continue
                     mono_seen[0] += 1
                     if st["footer_len"][1] < st["footer_len"][0]:
                         mono_bad.append("history %d step %d: footer %d -> %d bytes" % (h["id"], i, st["footer_len"][0], st["footer_len"][1]))
@@ -522,13 +848,15 @@ def run(ctx):
                 meta.append(("safe", short, st))
                 cmds.append(("safe_trace", [p.encode() for p in st["refs_before"]], dsfs.sx_trace(st["trace"])))
                 meta.append(("strict", short, st))
+                cmds.append(("safe_trace_gen", [p.encode() for p in st["refs_before"]], dsfs.sx_trace(st["trace"])))
+                meta.append(("gen", short, st))
                 # information (DESIGN 4.2): is the deterministic model trace (Dataset/Ops.v) exactly what the code did?
                 from harness.props.C19 import blocks_of
                 pt, rgs, mdc, cmdc, norm = blocks_of([(c[0], c[1], b"") if c[0] == "write" else c for c in st["trace"]])
                 cmds.append(("append_trace", [p.encode() for p in st["refs_before"]], 1 if pt else 0, rgs, mdc, cmdc))
                 meta.append(("model", short, norm))
                 # fresh names: every new file is referenced, every new reference is a new file
-                if "refs_after" in st:
+                if "refs_after" in st and not st.get("had_failed"):      # (a failed operation leaves unreferenced part files, which later appends may replace)
                     newrefs = st["refs_after"][len(st["refs_before"]):]
                     ctx.correspondence("new references = new files (fresh names)", short, sorted(set(newrefs)),
                                        sorted(p for p in st["new_files"] if p not in (dsfs.MD, dsfs.CMD)))
@@ -542,6 +870,7 @@ def run(ctx):
     model_trace = {"equal": 0, "different": 0, "examples": []}
     seq_model = {"equal": 0, "different": 0, "examples": []}
     strict = {"true": 0, "false": 0}
+    sym_info = {"true": 0, "false": 0}
     for (kind, short, st), o in zip(meta, outs):
         if kind == "model":
             mt = [[bytes(x) if isinstance(x, (bytes, bytearray)) else x for x in c] for c in o[0]] if isinstance(o, list) and o else o
@@ -559,7 +888,16 @@ def run(ctx):
             # information: the stricter relation `safe_trace` (_metadata before _common_metadata), which the code implements today
             strict["true" if o == 1 else "false"] += 1
             continue
+        if kind == "gen":
+            # the general commit-point relation (Dataset/CrashGen.v; theorem C07_multi_existing_untouched_general)
+            ok = ctx.correspondence("check_safe_gen(recorded trace of the real append) = true", short, 1, o)
+            if not ok and ctx.broken and "trace" not in ctx.broken[-1]:
+                ctx.broken[-1]["trace"] = dsfs.trace_json(st["trace"], 200)
+            continue
         if kind == "safe":
+            sym_info["true" if o == 1 else "false"] += 1        # information: the stricter relation today's code is also inside
+            continue
+        if kind == "safe_old":
             ok = ctx.correspondence("check_safe_trace_sym(recorded trace of the real append) = true", short, 1, o)
             if not ok and ctx.broken and "trace" not in ctx.broken[-1]:
                 ctx.broken[-1]["trace"] = dsfs.trace_json(st["trace"], 200)
@@ -573,6 +911,7 @@ def run(ctx):
             if not same and len(seq_model["examples"]) < 3:
                 seq_model["examples"].append({"case": short, "model": str(model)[:200], "real": [st["loc"], len(st["after"])]})
     ctx.extra["strict_safe_trace_on_recorded_traces"] = strict
+    ctx.extra["safe_trace_sym_on_recorded_traces"] = sym_info
     ctx.extra["append_seq_model_vs_real_bytes"] = seq_model
     ctx.notes.append("Append.append_simple (footer_loc + seq_write of the recorded write chunks) gives byte-exactly the file the real append left in %d of %d "
                      "single-file appends (information, not an obligation)" % (seq_model["equal"], seq_model["equal"] + seq_model["different"]))
